@@ -656,6 +656,7 @@ macro_rules! l2_typestate {
 // @oracle same frame / same H3 error code as the one-shot typestate reader, same bytes consumed; truncated frame => H3_FRAME_ERROR, clean end => ImmediateFin
 // @assume From<io::Error> stub; model source never errors
 // @outside inputs longer than 3 bytes in this instance (lengths 3,4 quick; 5 thorough)
+// @unwindset read_frame_async:4
 l2_typestate!(c15_l2_typestate_control_len3, control_stream(), 5, 3);
 
 // @h props=C15,C12 tier=quick t=2400 mem=20 sub=L2-typestate-control covers=any
@@ -664,6 +665,7 @@ l2_typestate!(c15_l2_typestate_control_len3, control_stream(), 5, 3);
 // @oracle same frame / same H3 error code as the one-shot typestate reader, same bytes consumed; truncated frame => H3_FRAME_ERROR, clean end => ImmediateFin
 // @assume From<io::Error> stub; model source never errors
 // @outside inputs longer than 4 bytes in this instance (lengths 3,4 quick; 5 thorough)
+// @unwindset read_frame_async:4
 l2_typestate!(c15_l2_typestate_control_len4, control_stream(), 5, 4);
 
 // @h props=C15,C12 tier=thorough t=2400 mem=20 sub=L2-typestate-control covers=any
@@ -672,6 +674,7 @@ l2_typestate!(c15_l2_typestate_control_len4, control_stream(), 5, 4);
 // @oracle same frame / same H3 error code as the one-shot typestate reader, same bytes consumed; truncated frame => H3_FRAME_ERROR, clean end => ImmediateFin
 // @assume From<io::Error> stub; model source never errors
 // @outside inputs longer than 5 bytes in this instance (lengths 3,4 quick; 5 thorough)
+// @unwindset read_frame_async:4
 l2_typestate!(c15_l2_typestate_control_len5, control_stream(), 5, 5);
 
 // @h props=C15,C12 tier=quick t=2400 mem=20 sub=L2-typestate-biremote covers=any
@@ -680,6 +683,7 @@ l2_typestate!(c15_l2_typestate_control_len5, control_stream(), 5, 5);
 // @oracle same frame / same H3 error code as the one-shot typestate reader, same bytes consumed; truncated frame => H3_FRAME_ERROR, clean end => ImmediateFin
 // @assume From<io::Error> stub; model source never errors
 // @outside inputs longer than 3 bytes in this instance (lengths 3,4 quick; 5 thorough)
+// @unwindset read_frame_async:4
 l2_typestate!(c15_l2_typestate_biremote_len3, Stream::accept_bi().upgrade(), 5, 3);
 
 // @h props=C15,C12 tier=quick t=2400 mem=20 sub=L2-typestate-biremote covers=any
@@ -688,6 +692,7 @@ l2_typestate!(c15_l2_typestate_biremote_len3, Stream::accept_bi().upgrade(), 5, 
 // @oracle same frame / same H3 error code as the one-shot typestate reader, same bytes consumed; truncated frame => H3_FRAME_ERROR, clean end => ImmediateFin
 // @assume From<io::Error> stub; model source never errors
 // @outside inputs longer than 4 bytes in this instance (lengths 3,4 quick; 5 thorough)
+// @unwindset read_frame_async:4
 l2_typestate!(c15_l2_typestate_biremote_len4, Stream::accept_bi().upgrade(), 5, 4);
 
 // @h props=C15,C12 tier=thorough t=2400 mem=20 sub=L2-typestate-biremote covers=any
@@ -696,6 +701,7 @@ l2_typestate!(c15_l2_typestate_biremote_len4, Stream::accept_bi().upgrade(), 5, 
 // @oracle same frame / same H3 error code as the one-shot typestate reader, same bytes consumed; truncated frame => H3_FRAME_ERROR, clean end => ImmediateFin
 // @assume From<io::Error> stub; model source never errors
 // @outside inputs longer than 5 bytes in this instance (lengths 3,4 quick; 5 thorough)
+// @unwindset read_frame_async:4
 l2_typestate!(c15_l2_typestate_biremote_len5, Stream::accept_bi().upgrade(), 5, 5);
 
 // @h props=C15,C12,C01 tier=quick t=1800 sub=L2-upgrade
